@@ -17,6 +17,9 @@ import ClairModel.Proofs.CpeFS
 import ClairModel.Proofs.CpeAccept
 import ClairModel.Proofs.CpeURI
 
+-- every variable of a property statement is bound explicitly: a misspelt name is an error, not a new variable
+set_option autoImplicit false
+
 namespace ClairModel.Props.C19
 open ClairModel ClairModel.Cpe ClairModel.CpeTypes ClairModel.CpeSpec
 
